@@ -22,7 +22,7 @@ def main():
         prop = d.name.split("_")[0]
         meta0 = json.loads((d / "meta.json").read_text())
         ALL = [f"C{i:02d}" for i in range(1, 21)]
-        if prop.startswith("A"):
+        if prop.startswith(("A", "B")):
             # "any property" seeds (round 3, by source area): every check is run; the ones the author
             # named come first
             named = [meta0.get("property")] + list(meta0.get("also") or [])
@@ -57,7 +57,7 @@ def main():
                     kind = "correspondence only (no-failing-input-found)" if all(
                         "no-failing-input-found" in l for l in lines) else "oracle: failing input on the real code"
                     det[chk] = kind
-                elif not prop.startswith("A") or chk in named:
+                elif not prop.startswith(("A", "B")) or chk in named:
                     det[chk] = "MISSED"
             meta = json.loads((d / "meta.json").read_text())
             meta["confirmed"] = {"demo_clean_exit": c0, "demo_patched_exit": c1,
@@ -77,7 +77,7 @@ def main():
     f = ROOT / "seeded" / "RESULTS.md"
     if f.exists() and pref:
         for l in f.read_text().splitlines():
-            m = re.match(r"\| ([AC]\d+_\d+) \|", l)
+            m = re.match(r"\| ([ABC]\d+_\d+) \|", l)
             if m:
                 old[m.group(1)] = l
     for r in rows:
